@@ -83,7 +83,9 @@ Print Assumptions C02_observer.
 Theorem C02_code_addresses : forall d0 d1 d2 d3, 0 <= d1 < 65536 ->
   c_get_ps_pos d0 d1 d2 d3 = get_ps_pos d1 /\ c_get_rt_pos d0 d1 d2 d3 = get_rt_pos d1
   /\ c_get_ptyn_pos d0 d1 d2 d3 = get_ptyn_pos d1.
-Proof. intros d0 d1 d2 d3 H. repeat split; [apply leaf_get_ps_pos|apply leaf_get_rt_pos|apply leaf_get_ptyn_pos]; exact H. Qed.
+Proof.
+  intros d0 d1 d2 d3 H. split; [apply leaf_get_ps_pos; exact H|]. split; [apply leaf_get_rt_pos; exact H|apply leaf_get_ptyn_pos; exact H].
+Qed.
 Print Assumptions C02_code_addresses.
 
 Example C02_scenario : check_run_u (observer_u 2) scenario = true.
